@@ -147,7 +147,7 @@ def case_ode(cfg):
     rar = _rar(cfg, "times")
     try:
         g = DataGeneratorODE(jax.random.PRNGKey(cfg["seed"]), n, lo, hi, b, cfg.get("method", "uniform"),
-                             rar, cfg.get("nstart") if rar else None)
+                             rar, cfg.get("nstart") if rar else cfg.get("stray_nstart"))      # stray_nstart: a start count given WITHOUT the refinement option (ignored)
     except Exception as ex:  # construction rejected
         tr["exc"] = f"{type(ex).__name__}: {str(ex)[:120]}"
         return tr
@@ -210,11 +210,11 @@ def _mk_pde(cfg, nonstatio):
     rar = _rar(cfg, "omega")
     kw = dict(key=jax.random.PRNGKey(cfg["seed"]), n=cfg["n"], nb=cfg.get("nb"), omega_batch_size=cfg["b"],
               omega_border_batch_size=cfg.get("bb"), dim=dim, min_pts=tuple(lo), max_pts=tuple(hi),
-              method=cfg.get("method", "uniform"), rar_parameters=rar, n_start=cfg.get("nstart") if rar else None)
+              method=cfg.get("method", "uniform"), rar_parameters=rar, n_start=cfg.get("nstart") if rar else cfg.get("stray_nstart"))
     if nonstatio:
         tlo, thi = cfg.get("tbox", [0.0, 1.0])
         kw.update(nt=cfg["nt"], temporal_batch_size=cfg["bt"], tmin=float(tlo), tmax=float(thi),
-                  cartesian_product=_flag(cfg), nt_start=cfg.get("ntstart") if rar else None)
+                  cartesian_product=_flag(cfg), nt_start=cfg.get("ntstart") if rar else cfg.get("stray_nstart"))
         return CubicMeshPDENonStatio(**kw)
     return CubicMeshPDEStatio(**kw)
 
